@@ -685,6 +685,21 @@ def run_genbank(case):
         lambda: f"got {_show_set(got)}, want {_show_set(want)}, warnings {notes}, text {text!r}",
     )
 
+    # include_only: exactly the features with one of the given keys, in either container type
+    keys = sorted({ft["key"] for ft in features})
+    filters = [[]] + [[k] for k in keys] + ([keys[:-1], tuple(keys[1:])] if len(keys) > 1 else []) + [["verif_absent_key"]]
+    for flt in filters:
+        for obj, what in ((f, "filled file"), (g, "parsed file")):
+            sel, notes = _get_annotation_noted(lambda: gb.get_annotation(obj, include_only=flt))
+            want_sel = frozenset(t for t in want if t[0] in flt)
+            o.check(
+                _annotation_set(sel) == want_sel,
+                "genbank_include_only",
+                lambda: f"get_annotation({what}, include_only={flt!r}) = {_show_set(_annotation_set(sel))}, want {_show_set(want_sel)} {notes}",
+            )
+    if len(keys) > 1:
+        o.label("include_only_excludes_some")
+
     nt = _gb_feature_labels(o, features)
     o.label("fmt=" + fmt, "nfeat=%d" % min(len(features), 3))
     if case["with_seq"]:
